@@ -28,7 +28,6 @@ def run(ctx):
     pc.design_level(ctx)
     # 2. implementation -> model
     binp = ctx.build("publish")
-    demo_ok = pc.binding_demo(ctx, binp)
     batches = [("main", ctx.seed, 7, 10, 34, 14)] if q else [("main", ctx.seed, 30, 14, 40, 40), ("long", ctx.seed + 500, 8, 8, 90, 12)]
     tot = dict(runs=0, obs=0, fin=0, reads=0, api=0, raced=0, stale=0, distinct=0, pairs=0, best_changes=0, reorgs=0, diverged=0,
                quiesce=0, sims=0, queries=0)
@@ -62,6 +61,9 @@ def run(ctx):
                 tot["queries"] += r["quiescence"]["queries"]
         ctx.sample({k: v for k, v in d["runs"][0].items() if k != "violations"}, limit=3)
         pc.validate(ctx, trace_path, label, how)
+    # the binding demonstration runs AFTER the main batches: on a tree whose behaviour is broken the demo's own driver
+    # run may die, and that must not hide the violations observed above
+    demo_ok = pc.binding_demo(ctx, binp)
     if not demo_ok and not ctx.violations and not ctx.known_hit:
         raise Infra("the demo trace was rejected by Trace_Publish but the main batches were not")
     # 3. by-product: race detector
